@@ -180,8 +180,10 @@ func (r *Reader) resolveHref(href string) string {
 		href = decoded
 	}
 
+	// path.Join also removes "." and ".." segments; do the same when the
+	// package document sits in the root of the container
 	if r.baseDir == "" {
-		return href
+		return path.Clean(href)
 	}
 	return path.Join(r.baseDir, href)
 }
